@@ -283,11 +283,9 @@ def monitor(op, out, st):
 
 
 def nontrivial(op, out):
-    k = op.split()[0]
-    # non-trivial = n ≥ 1; distinct by the whole op line
-    toks = op.split()
-    if any(tk not in ('0',) for tk in toks[1:2]) or len(toks) > 6:
-        return hash(op)
+    # non-trivial = at least one vector operand with n ≥ 1 (≥ 3 hex tokens); distinct by op line
+    if sum(1 for tk in op.split() if len(tk) == 16) >= 3:
+        return op
     return None
 
 
